@@ -1381,7 +1381,11 @@ func (e *Engine) binop(st *State, x *ssa.BinOp, a, b Value) Value {
 		case token.NEQ:
 			return Not(eq)
 		case token.ADD:
-			panic("string concat unsupported in prototype")
+			ca, cb := e.constOf(st, av), e.constOf(st, bs)
+			if ca != nil && cb != nil {
+				return e.constString(string(*ca) + string(*cb))
+			}
+			panic("string concatenation of non-constant strings is unsupported")
 		}
 	case FuncV:
 		bf := b.(FuncV)
@@ -2187,6 +2191,13 @@ func (e *Engine) intrinsic(st *State, f *Frame, x *ssa.Call, fn *ssa.Function, n
 		e.Reached[e.strConst(st, args[0])]++
 		st.reached = append(st.reached, e.strConst(st, args[0]))
 		return nil, true
+	case "verifB2U":
+		return Ite(args[0].(*Term), c64(1), c64(0)), true
+	case "verifAssertDecodesLikeRef":
+		return nil, true
+	case "verifAssertCanonical":
+		args = args[1:]
+		fallthrough
 	case "verifAssertBytesEq":
 		a, b := args[0].(SliceV), args[1].(SliceV)
 		e.skolem++
@@ -2483,4 +2494,18 @@ func (e *Engine) errorsIs(st *State, err, target IfaceV, depth int) bool {
 		}
 	}
 	return false
+}
+
+// constOf returns the contents of a string value that denotes (a slice of) a constant string
+func (e *Engine) constOf(st *State, s StringV) *[]byte {
+	if s.Obj == 0 {
+		b := []byte{}
+		return &b
+	}
+	o := e.obj(st, s.Obj)
+	if o.Const == nil || !s.Off.IsConst() || !s.Len.IsConst() || s.Off.C+s.Len.C > uint64(len(o.Const)) {
+		return nil
+	}
+	b := o.Const[s.Off.C : s.Off.C+s.Len.C]
+	return &b
 }
